@@ -461,26 +461,33 @@ func main() {
 	// ---------- emit ----------
 	os.MkdirAll(outdir, 0o755)
 	var gl strings.Builder
-	gl.WriteString("import RulesModel.Model.Lexer\n/-! GENERATED by /verif/extract from /repo/parser/JsonQuery.g4 — do not edit. -/\nnamespace Rules.Generated\nopen Rules Rules.Regex\n\n")
-	fmt.Fprintf(&gl, "def g4ok : Bool := %v\n\n", f.G4OK)
-	gl.WriteString("/-- token rules in priority order: implicit literals of the parser rules first, then the lexer rules in file order -/\n")
-	gl.WriteString("def lexerRules : List (Kind × Regex) := [\n  " + strings.Join(lexLean, ",\n  ") + "]\n\n")
-	gl.WriteString("def lexerRuleNames : List String := " + leanStrs(f.LexerRules) + "\n\n")
-	gl.WriteString("def parserRules : List String := [\n  " + strings.Join(mapStr(f.ParserRules, leanStr), ",\n  ") + "]\n\n")
-	var sp [][2]string
-	for _, n := range f.LexerRules {
-		if s, ok := f.Spellings[n]; ok {
-			sp = append(sp, [2]string{n, strings.Join(s, "\x00")})
+	if !f.G4OK {
+		// the grammar file could not be read: the driver falls back to the table the proofs were written against;
+		// `Tie.g4_readable` then fails and names the problem (DESIGN §4.1 policy 4)
+		fb := "import RulesModel.Expected.LexTable\n/-! GENERATED by /verif/extract: parser/JsonQuery.g4 could not be read (" + strings.ReplaceAll(f.G4Err, "-/", "- /") + "); falling back to the expected tables. -/\nnamespace Rules.Generated\nopen Rules\ndef g4ok : Bool := false\ndef lexerRules : List (Kind × Regex) := jqRules\ndef lexerRuleNames : List String := Expected.lexerRuleNames\ndef parserRules : List String := []\ndef spellings : List (String × List String) := Expected.spellings\nend Rules.Generated\n"
+		os.WriteFile(filepath.Join(outdir, "Grammar.lean"), []byte(fb), 0o644)
+	} else {
+		gl.WriteString("import RulesModel.Model.Lexer\n/-! GENERATED by /verif/extract from /repo/parser/JsonQuery.g4 — do not edit. -/\nnamespace Rules.Generated\nopen Rules Rules.Regex\n\n")
+		fmt.Fprintf(&gl, "def g4ok : Bool := %v\n\n", f.G4OK)
+		gl.WriteString("/-- token rules in priority order: implicit literals of the parser rules first, then the lexer rules in file order -/\n")
+		gl.WriteString("def lexerRules : List (Kind × Regex) := [\n  " + strings.Join(lexLean, ",\n  ") + "]\n\n")
+		gl.WriteString("def lexerRuleNames : List String := " + leanStrs(f.LexerRules) + "\n\n")
+		gl.WriteString("def parserRules : List String := [\n  " + strings.Join(mapStr(f.ParserRules, leanStr), ",\n  ") + "]\n\n")
+		var sp [][2]string
+		for _, n := range f.LexerRules {
+			if s, ok := f.Spellings[n]; ok {
+				sp = append(sp, [2]string{n, strings.Join(s, "\x00")})
+			}
 		}
+		gl.WriteString("/-- token name ↦ its literal spellings (for tokens that are plain alternatives of literals) -/\n")
+		gl.WriteString("def spellings : List (String × List String) := [\n  ")
+		var spp []string
+		for _, p := range sp {
+			spp = append(spp, "("+leanStr(p[0])+", "+leanStrs(strings.Split(p[1], "\x00"))+")")
+		}
+		gl.WriteString(strings.Join(spp, ",\n  ") + "]\n\nend Rules.Generated\n")
+		os.WriteFile(filepath.Join(outdir, "Grammar.lean"), []byte(gl.String()), 0o644)
 	}
-	gl.WriteString("/-- token name ↦ its literal spellings (for tokens that are plain alternatives of literals) -/\n")
-	gl.WriteString("def spellings : List (String × List String) := [\n  ")
-	var spp []string
-	for _, p := range sp {
-		spp = append(spp, "("+leanStr(p[0])+", "+leanStrs(strings.Split(p[1], "\x00"))+")")
-	}
-	gl.WriteString(strings.Join(spp, ",\n  ") + "]\n\nend Rules.Generated\n")
-	os.WriteFile(filepath.Join(outdir, "Grammar.lean"), []byte(gl.String()), 0o644)
 
 	var fl strings.Builder
 	fl.WriteString("/-! GENERATED by /verif/extract from /repo's Go sources — do not edit. -/\nnamespace Rules.Generated\n\n")
